@@ -188,6 +188,9 @@ func (v *RuleVistor) Process(node *Node) {
 			}
 			// prec sym
 			if ruledef.PrecSym != "" {
+				if v.idsymtabl[ruledef.PrecSym] == nil {
+					panic(fmt.Sprintf("%%prec symbol %s is not defined", ruledef.PrecSym))
+				}
 				precIdsym := v.preMap[ruledef.PrecSym]
 				r.PrecIdSym = precIdsym
 			}
